@@ -450,6 +450,67 @@ def builtin_scenarios(ctx, out):
     out.coverage['builtin_container_attributes_checked'] = cnt
 
 
+def ctor_scenarios(ctx, out):
+    """values given as CONSTRUCTOR keywords are writes like any other: A(x=v) reads v - also v = None for an attribute
+    whose declared default is not None -, reports eIsSet, and a sibling created bare still reads the default"""
+    common.use_repo()
+    from pyecore import ecore as E
+    rng = common.rng_for(ctx.seed, 'C15:ctor')
+    n = 60 if ctx.tier != 'thorough' else 1000
+    cnt = 0
+    for it in range(n):
+        A = E.EClass('A')
+        decls = []
+        for i in range(rng.randrange(1, 4)):
+            kind = rng.choice(['int-type', 'int-explicit', 'str-literal', 'bool-type', 'str-none'])
+            if kind == 'int-type':
+                f, d = E.EAttribute(f'a{i}', E.EInt), 0
+            elif kind == 'int-explicit':
+                f, d = E.EAttribute(f'a{i}', E.EInt, default_value=5), 5
+            elif kind == 'str-literal':
+                f, d = E.EAttribute(f'a{i}', E.EString, defaultValueLiteral='anon'), 'anon'
+            elif kind == 'bool-type':
+                f, d = E.EAttribute(f'a{i}', E.EBoolean), False
+            else:
+                f, d = E.EAttribute(f'a{i}', E.EString), None
+            A.eStructuralFeatures.append(f)
+            decls.append((f, d, kind))
+        kw, want = {}, {}
+        for f, d, kind in decls:
+            r = rng.random()
+            if r < 0.4:
+                kw[f.name] = None
+                want[f.name] = None
+            elif r < 0.7:
+                v = {'int-type': 7, 'int-explicit': 5, 'str-literal': 'x', 'bool-type': True, 'str-none': 'y'}[kind]
+                kw[f.name] = v
+                want[f.name] = v
+        hist = [[f.name, kind] for f, d, kind in decls] + [['ctor', {k: repr(v) for k, v in kw.items()}]]
+        case = {'scenario': 'ctor', 'seed': ctx.seed, 'tier': ctx.tier, 'history': hist}
+        try:
+            a, b = A(**kw), A()
+        except Exception as e:  # noqa
+            out.fail({'property': PID, 'clause': 'ctor-raised', 'dtype': 'any', 'source': 'ctor'}, f'A(**{kw!r}) raised {type(e).__name__}: {e}', case)
+            continue
+        cnt += 1
+        for f, d, kind in decls:
+            got = getattr(a, f.name)
+            if f.name in want:
+                if got != want[f.name] or type(got) is not type(want[f.name]) or not a.eIsSet(f):
+                    out.fail({'property': PID, 'clause': 'value', 'dtype': kind, 'source': 'ctor'},
+                             f'A({f.name}={want[f.name]!r}) reads {got!r} (eIsSet {a.eIsSet(f)}); declared default {d!r}', case)
+                    break
+            elif got != d or a.eIsSet(f):
+                out.fail({'property': PID, 'clause': 'default', 'dtype': kind, 'source': 'ctor'},
+                         f'{f.name} was not given to the constructor but reads {got!r} (eIsSet {a.eIsSet(f)}), default {d!r}', case)
+                break
+            if getattr(b, f.name) != d or b.eIsSet(f):
+                out.fail({'property': PID, 'clause': 'private', 'dtype': kind, 'source': 'ctor'},
+                         f'a sibling created bare reads {f.name}={getattr(b, f.name)!r} (eIsSet {b.eIsSet(f)}), default {d!r}', case)
+                break
+    out.coverage['constructor_keyword_objects'] = cnt
+
+
 def many_valued_part(ctx, out):
     """part M: multi-valued attributes (unique and list collections over EInt / EString / an enumeration) next to
     single-valued ones, on the kernel model: values AND eIsSet flags of every (object, feature) after every call
@@ -473,11 +534,12 @@ def run(ctx, out):   # noqa: F811
     _run_single(ctx, out)
     many_valued_part(ctx, out)
     builtin_scenarios(ctx, out)
+    ctor_scenarios(ctx, out)
 
 
 def replay(ctx, rep):
-    if rep.get('case', {}).get('scenario') == 'builtin':
-        return common.scenario_replay(ctx, rep, {'builtin': builtin_scenarios})
+    if rep.get('case', {}).get('scenario') in ('builtin', 'ctor'):
+        return common.scenario_replay(ctx, rep, {'builtin': builtin_scenarios, 'ctor': ctor_scenarios})
     if 'templates' in rep.get('case', {}) or 'mm' in rep.get('case', {}):
         from harness import krun
         r = krun.Run(rep['case'], []).run()
